@@ -23,6 +23,10 @@ func runC10(c *an.Ctx) {
 	r10bc(c)
 	r10d(c)
 	r10e(c)
+	// shared with C01: teardown decides "the environment is RUNNING, end the run" on a state read under the transition
+	// lock; a state read before the lock can be CONFIGURED while the run has started meanwhile, and the run then ends
+	// without end timestamps
+	c.As(map[string]string{"R01c": "R10f"}, func() { r01c(c) })
 }
 
 type varWrite struct {
